@@ -270,6 +270,13 @@ pub trait ModeOps: Sized + Clone + 'static {
     fn algname() -> String;
 }
 
+/// both forms of the `Debug` text: `{:?}` and the alternate `{:#?}` (white space collapsed to keep it on one line)
+pub fn dbg2<T: core::fmt::Debug + ?Sized>(x: &T) -> String {
+    let alt = format!("{:#?}", x);
+    let alt: Vec<&str> = alt.split_whitespace().collect();
+    format!("{:?} ## {}", x, alt.join(" "))
+}
+
 struct AlgNameOf<T>(core::marker::PhantomData<T>);
 impl<T: AlgorithmName> core::fmt::Display for AlgNameOf<T> {
     fn fmt(&self, f: &mut core::fmt::Formatter<'_>) -> core::fmt::Result {
@@ -339,7 +346,7 @@ macro_rules! impl_mode_ops {
                 <Self as InnerIvInit>::inner_iv_init(c, &st)
             }
             fn debug(&self) -> String {
-                format!("{:?}", self)
+                dbg2(self)
             }
             fn algname() -> String {
                 alg_name::<Self>()
@@ -489,7 +496,7 @@ macro_rules! impl_ofb_block {
                 $name(<ofb::OfbCore<C> as InnerIvInit>::inner_iv_init(c, &st))
             }
             fn debug(&self) -> String {
-                format!("{:?}", self.0)
+                dbg2(&self.0)
             }
             fn algname() -> String {
                 alg_name::<ofb::OfbCore<C>>()
@@ -716,7 +723,7 @@ where
                 line("ok".into())
             }
             ["debug"] => {
-                if ENC { line(format!("text {:?}", self.e.as_ref().unwrap())) } else { line(format!("text {:?}", self.d.as_ref().unwrap())) }
+                if ENC { line(format!("text {}", dbg2(self.e.as_ref().unwrap()))) } else { line(format!("text {}", dbg2(self.d.as_ref().unwrap()))) }
             }
             ["algname"] => {
                 if ENC { line(format!("text {}", alg_name::<cfb_mode::BufEncryptor<C>>())) } else { line(format!("text {}", alg_name::<cfb_mode::BufDecryptor<C>>())) }
@@ -942,7 +949,7 @@ where
                 self.w = StreamCipherCoreWrapper::from_core(core);
                 line("ok".into())
             }
-            ["debug"] => line(format!("text {:?}", self.w)),
+            ["debug"] => line(format!("text {}", dbg2(&self.w))),
             ["algname"] => line(format!("text {}", alg_name::<T>())),
             _ => bad(),
         }
@@ -1084,7 +1091,7 @@ impl<T: CoreKind> Obj for CoreObj<T> {
                 self.c = <T as KeyIvInit>::new(self.key.as_slice().try_into().unwrap(), &st);
                 line("ok".into())
             }
-            ["debug"] => line(format!("text {:?}", self.c)),
+            ["debug"] => line(format!("text {}", dbg2(&self.c))),
             ["algname"] => line(format!("text {}", alg_name::<T>())),
             _ => bad(),
         }
@@ -1220,7 +1227,7 @@ pub trait ViaDebug {
 }
 impl<T: core::fmt::Debug> ViaDebug for DbgWrap<'_, T> {
     fn dbg_text(&self) -> String {
-        format!("{:?}", self.0)
+        dbg2(self.0)
     }
 }
 pub trait ViaNoDebug {
